@@ -89,9 +89,10 @@ def sortTies (T : Config) : Bool :=
           resolveRule T r != resolveRule T r') || go rest
     go p.rules
 
-/-- Everything a convergence theorem assumes about one pair. -/
+/-- Everything the convergence theorems assume about one pair.  (`idsOK` is not among them any
+more: after the repair f4446e1 it follows from `targetWF`, see `nsx_ids_unique`.) -/
 def accepted (S : Store) (T : Config) : Bool :=
   storeWF S && addrsNodup S && targetWF T && policyIdsManaged T && extRefsOK S T &&
-  unmanagedIndep S && idsOK (load S) T
+  unmanagedIndep S
 
 end NA.Nsx
